@@ -57,7 +57,7 @@ SYM = {'mul': '*', 'div': '/', 'add': '+', 'sub': '-', 'leq': '<=', 'geq': '>=',
        'historically': 'historically', 'once': 'once', 'prev': 'prev', 'next': 'next', 's_prev': 's_prev', 's_next': 's_next', 'neg': '-'}
 
 
-def _spec(front, txt, vs, period=None):
+def _spec(front, txt, vs, period=None, late_unit=None):
     if front == 'ltl':
         from rtamt.spec.abstract_specification import AbstractOfflineSpecification
         from rtamt.syntax.ast.parser.ltl.specification_parser import LtlAst
@@ -68,10 +68,10 @@ def _spec(front, txt, vs, period=None):
         s.spec = txt
         s.parse()
         return s
-    return dt.make_spec('combined', txt, vs, period=period)
+    return dt.make_spec('combined', txt, vs, period=period, unit=late_unit, config_after_parse=bool(late_unit))
 
 
-def h_variant(f, canon, variant, N, online=False, front='stl', period=None):
+def h_variant(f, canon, variant, N, online=False, front='stl', period=None, late_unit=None):
     """f: intended AST (oracle); canon / variant: full specification texts"""
     f = T(f)
     vs = sorted(variables(f))
@@ -79,8 +79,8 @@ def h_variant(f, canon, variant, N, online=False, front='stl', period=None):
     def body(env):
         A = env.A
         w = dt.trace(env, vs, N)
-        sc = _spec('stl', canon, vs, period)
-        sv = _spec(front, variant, vs, period)          # a variant that does not parse does not denote the same monitor: the exception is the finding
+        sc = _spec('stl', canon, vs, period, late_unit)
+        sv = _spec(front, variant, vs, period, late_unit)          # a variant that does not parse does not denote the same monitor: the exception is the finding
         gc = [p[1] for p in dt.offline(sc, w, N)]
         gv = [p[1] for p in dt.offline(sv, w, N)]
         env.observe('variant', gv)
@@ -192,6 +192,13 @@ def obligations(tier, rng):
         add('unless-sugar', f, 'out = ' + text(f), 'out = (x) unless[%d,%d] (y)' % (a, b))
     f = ('or', ('always', X), ('until', X, Y))
     add('unless-sugar', f, 'out = ' + text(f), 'out = (x) unless (y)')
+    # ... with the default unit (and a matching sampling period) assigned AFTER parse(): unit-less bounds are read in the unit in force when
+    # the monitor runs, in both halves of the sugar
+    for a, b in [(1, 3), (0, 2)]:
+        f = ('or', ('always_t', X, 0, b), ('until_t', X, Y, a, b))
+        for lu, per in (('ms', [1, 'ms']), ('us', [1, 'us'])):
+            out.append(ob('C15', 'variant', 'unless-sugar-late-unit/%s/out = (x) unless[%d,%d] (y)  ~  %s' % (lu, a, b, 'out = ' + text(f)), f=f, canon='out = ' + text(f),
+                          variant='out = (x) unless[%d,%d] (y)' % (a, b), N=N, online=False, front='stl', period=per, late_unit=lu))
     # ... on traces NOT LONGER than the upper bound (the two halves of the sugar share the left operand)
     for a, b in [(1, 5), (0, 3), (2, 4)]:
         f = ('or', ('always_t', X, 0, b), ('until_t', X, Y, a, b))
